@@ -183,8 +183,9 @@ static std::string writeAndDecode(const std::string &fmt, long sx, long sy, uint
 {
   std::string fn = g_dir + "/img";
   remove(fn.c_str());
-  static_assert(sizeof(math::vec3f) == 12 && sizeof(math::vec3fa) == 16 && sizeof(math::vec4f) == 16,
-      "pixel struct layout");
+  // (the size of the padded vec3fa is deliberately not asserted here: the PFM writer for it takes 4 words per pixel,
+  // which is what the harness supplies; a layout that disagrees with the writer shows up in the decoded pixels)
+  static_assert(sizeof(math::vec3f) == 12 && sizeof(math::vec4f) == 16, "pixel struct layout");
   std::string res;
   runOnSmallStack([&] {
     try {
@@ -594,6 +595,7 @@ struct ThreadObs
 
 // returns the observation line; `retry` is set when the only problem is a non-finite
 // cpuUtilization (clock resolution artefact, see DESIGN residue) so that the caller may re-run
+static bool g_saveTwice = false;
 static std::string runTraceChild(const std::string &proc, bool &retry)
 {
   retry = false;
@@ -629,6 +631,11 @@ static std::string runTraceChild(const std::string &proc, bool &retry)
   std::string fn = g_dir + "/trace.json";
   remove(fn.c_str());
   tracing::saveLog(fn.c_str(), proc == "-" ? nullptr : proc.c_str());
+  if (g_saveTwice) {
+    // a second saveLog in the same process (nothing recorded in between) must describe the same events again
+    remove(fn.c_str());
+    tracing::saveLog(fn.c_str(), proc == "-" ? nullptr : proc.c_str());
+  }
   std::string text;
   if (!readFile(fn, text))
     return "malformed:no-file";
@@ -896,6 +903,12 @@ int main(int argc, char **argv)
       return opSave(w[1]);
     if (w[0] == "saveseq" && w.size() == 2)
       return opSave(w[1], true);
+    if (w[0] == "save2" && w.size() == 2) {
+      g_saveTwice = true;
+      std::string r = opSave(w[1]);
+      g_saveTwice = false;
+      return r;
+    }
     return "bad-op";
   };
   int rc = vh::run(reset, step);
